@@ -134,6 +134,7 @@ func c14Scenarios() []*core.Scenario {
 			s.MetaCloseFails = true
 			return s
 		}(),
+		mk("Close || StoreLogs || DeleteRange head (log compaction on another goroutine)", core.ThreadSpec{Name: "writer", Ops: []core.Op{a(3, 0, 4)}}, core.ThreadSpec{Name: "compactor", Ops: []core.Op{{K: "D", Min: 1, Max: 1}}}),
 		mk("Close || StoreLogs || GetLog, LastIndex", core.ThreadSpec{Name: "writer", Ops: []core.Op{a(3, 0, 4)}}, core.ThreadSpec{Name: "reader", Ops: []core.Op{{K: "GL", Idx: 2}, {K: "LI"}}}),
 	}
 }
